@@ -8,7 +8,9 @@ import (
 	"fmt"
 	"os"
 	"path/filepath"
+	"regexp"
 	"sort"
+	"strconv"
 	"strings"
 	"sync"
 	"time"
@@ -63,8 +65,13 @@ type diskState struct {
 // system call of one activity on one side, counted from when it was armed.
 type midcycleEvent struct {
 	side, activity string
-	countdown      int
-	fire           func()
+	// path, if set, restricts the countdown to system calls on that path, its
+	// ancestors or its descendants: which sibling operation comes first is the
+	// runtime's choice (map iteration inside mutagen), the operations that
+	// touch one path are not.
+	path      string
+	countdown int
+	fire      func()
 }
 
 var stackLabels = []simkit.StackLabel{
@@ -229,9 +236,30 @@ func maskTemp(rel string) string {
 		if j < 0 {
 			return rel[:i] + temporaryPrefix + "*"
 		}
-		return rel[:i] + temporaryPrefix + "*" + rel[i+j:]
+		// Names inside a temporary directory carry random suffixes as well
+		// (the staging store's "storage<number>" files).
+		return rel[:i] + temporaryPrefix + "*" + randomDigits.ReplaceAllString(rel[i+j:], "*")
 	}
 	return rel
+}
+
+var randomDigits = regexp.MustCompile(`[0-9]{4,}`)
+
+// stableHash mixes stable identifiers only (never pointers, descriptors or
+// arrival order), for choices that must not depend on the order in which the
+// runtime's map iteration makes mutagen issue sibling operations.
+func stableHash(salt int64, parts ...string) uint64 {
+	h := uint64(salt)*0x9e3779b97f4a7c15 + 0x85ebca6b
+	for _, p := range parts {
+		for i := 0; i < len(p); i++ {
+			h = (h ^ uint64(p[i])) * 0x100000001b3
+		}
+		h = (h ^ 0xff) * 0x100000001b3
+	}
+	h ^= h >> 29
+	h *= 0xbf58476d1ce4e5b9
+	h ^= h >> 32
+	return h
 }
 
 var errnos = map[int64]error{1: unix.EIO, 2: unix.EACCES, 3: unix.ENOSPC, 4: unix.ENOENT, 5: unix.EXDEV, 6: unix.ENOTEMPTY, 7: unix.EEXIST, 8: unix.EINTR}
@@ -263,7 +291,14 @@ func (d *diskState) hook(op string, dirfd int, path string, dirfd2 int, path2 st
 		}
 	}
 	if side == "" && side2 == "" {
-		return nil // data directory, staging, probes elsewhere: never gated
+		// Data directory, staging area, probes elsewhere: never gated. A crash
+		// can still be placed right after one of the renames there (the commit
+		// point of a staged file).
+		d.crashBefore(op, "data", filepath.Base(abs))
+		if op == "renameat" || op == "renameat2" {
+			d.crashAfterRename(op, dirfd, path, dirfd2, path2, "data", filepath.Base(abs2))
+		}
+		return nil
 	}
 	activity := simkit.LabelFromStack(stackLabels)
 	if activity == "" {
@@ -285,7 +320,7 @@ func (d *diskState) hook(op string, dirfd int, path string, dirfd2 int, path2 st
 	d.h.mu.Unlock()
 	// A root event armed to strike in the middle of a cycle (C11).
 	d.mu.Lock()
-	if m := d.midcycle; m != nil && m.side == gateSide && m.activity == activity {
+	if m := d.midcycle; m != nil && m.side == gateSide && m.activity == activity && (m.path == "" || pathRelated(m.path, maskTemp(gateRel))) {
 		m.countdown--
 		if m.countdown <= 0 {
 			d.midcycle = nil
@@ -295,13 +330,29 @@ func (d *diskState) hook(op string, dirfd int, path string, dirfd2 int, path2 st
 		}
 	}
 	d.mu.Unlock()
-	if n := s.Occur(gateSide + "." + activity); settling {
-		// The user is idle while the session settles.
-	} else if f := s.MatchFault("fs_user", gateSide+"."+activity, n); f != nil {
-		if kind, rel, ok := strings.Cut(f.S, ":"); ok {
-			s.Count("fault.fs_user."+kind, 1)
-			d.userOp(simkit.Op{Actor: "user", Kind: kind, N: []int64{f.Arg, 0}, S: []string{gateSide, rel, "a"}})
+	if !settling {
+		// A user action placed inside a mutagen activity: just before the Nth
+		// hooked system call of that activity on the action's own path, an
+		// ancestor or a descendant of it (counted per path: stable whatever the
+		// order of sibling operations).
+		for _, f := range s.FaultsOfKind("fs_user") {
+			if f.Key != gateSide+"."+activity {
+				continue
+			}
+			kind, rel, ok := strings.Cut(f.S, ":")
+			if !ok || !pathRelated(rel, maskTemp(gateRel)) {
+				continue
+			}
+			if n := s.Occur(f.Key + "~" + f.S); n == f.Nth && !s.FaultsStopped() {
+				s.Count("fault.fs_user", 1)
+				s.Count("fault.fs_user."+kind, 1)
+				s.Logf("fault", "user %s %q strikes inside %s.%s (before system call %d near that path)", kind, rel, gateSide, activity, n)
+				d.userOp(simkit.Op{Actor: "user", Kind: kind, N: []int64{f.Arg, 0}, S: []string{gateSide, rel, "a"}})
+			}
 		}
+	}
+	if op == "renameat" || (op == "renameat2" && d.h.plan.C("no_renameat2") != 1) {
+		d.crashAfterRename(op, dirfd, path, dirfd2, path2, gateSide, maskTemp(rel2))
 	}
 	// A filesystem without RENAME_NOREPLACE (NFS, many FUSE filesystems): every
 	// renameat2 answers "not supported" for the whole run, so mutagen takes its
@@ -313,7 +364,30 @@ func (d *diskState) hook(op string, dirfd int, path string, dirfd2 int, path2 st
 	}
 	// Fault injection keyed by (side, activity, operation), Nth occurrence.
 	n := s.Occur(key)
-	if f := s.MatchFault("fs_errno", key, n); f != nil {
+	f := s.MatchFault("fs_errno", key, n)
+	if f != nil && strings.HasPrefix(f.S, "r") {
+		f = nil // a rate rule, decided below
+	}
+	if f == nil && !s.FaultsStopped() {
+		// Rate rules: whether this operation fails is a pure function of the
+		// rule's salt, the masked path and how often this very (operation, path)
+		// pair has occurred - not of how many sibling operations came first.
+		for _, r := range s.FaultsOfKind("fs_errno") {
+			if r.Key != key || !strings.HasPrefix(r.S, "r") {
+				continue
+			}
+			rate, _ := strconv.Atoi(r.S[1:])
+			mp := maskTemp(gateRel)
+			k := s.Occur(key + "@" + mp)
+			if rate > 0 && stableHash(int64(r.Nth), key, mp, strconv.Itoa(k))%uint64(rate) == 0 {
+				r := r
+				f = &r
+				s.Count("fault.fs_errno", 1)
+				break
+			}
+		}
+	}
+	if f != nil {
 		if e, ok := errnos[f.Arg]; ok {
 			d.h.mu.Lock()
 			d.h.ideal = false
@@ -348,6 +422,66 @@ func (d *diskState) hook(op string, dirfd int, path string, dirfd2 int, path2 st
 		}
 	}
 	return nil
+}
+
+// crashBefore implements the fault kind crash_before for operations that are
+// never gated (data directory): the daemon dies just before this system call.
+func (d *diskState) crashBefore(op, where, target string) {
+	s := d.h.s
+	if s.FaultsStopped() || s.Crashed() {
+		return
+	}
+	target = randomDigits.ReplaceAllString(target, "*")
+	for _, f := range s.FaultsOfKind("crash_before") {
+		if f.Key != where {
+			continue
+		}
+		rate, _ := strconv.Atoi(strings.TrimPrefix(f.S, "r"))
+		k := s.Occur("crash_before@" + where + "@" + op + "@" + target)
+		if rate > 0 && stableHash(int64(f.Nth), where, op, target, strconv.Itoa(k))%uint64(rate) == 0 {
+			s.Logf("fault", "the daemon dies just before %s %q (%s)", op, target, where)
+			s.Count("fault.crash_before_syscall", 1)
+			s.Crash()
+			s.ParkForever()
+		}
+	}
+}
+
+// crashAfterRename implements the fault kind crash_after: the daemon dies right
+// after a rename has taken effect and before it executes another instruction
+// (the hook only sees operations before they happen, so it performs this one
+// itself and never returns to the caller). Renames are the commit points of
+// staged files, of files moved into a root and of atomic replacements; whatever
+// the code meant to do after one - flush a buffer, fix permissions, record a
+// result - does not happen.
+func (d *diskState) crashAfterRename(op string, dirfd int, path string, dirfd2 int, path2 string, where, target string) {
+	s := d.h.s
+	if s.FaultsStopped() || s.Crashed() {
+		return
+	}
+	for _, f := range s.FaultsOfKind("crash_after") {
+		if f.Key != where && f.Key != "any" {
+			continue
+		}
+		rate, _ := strconv.Atoi(strings.TrimPrefix(f.S, "r"))
+		k := s.Occur("crash_after@" + where + "@" + randomDigits.ReplaceAllString(target, "*"))
+		if rate <= 0 || stableHash(int64(f.Nth), where, randomDigits.ReplaceAllString(target, "*"), strconv.Itoa(k))%uint64(rate) != 0 {
+			continue
+		}
+		var err error
+		if op == "renameat2" {
+			err = unix.Renameat2(dirfd, path, dirfd2, path2, unix.RENAME_NOREPLACE)
+		} else {
+			err = unix.Renameat(dirfd, path, dirfd2, path2)
+		}
+		if err != nil {
+			return // it would have failed: let the real call report that
+		}
+		s.Logf("fault", "the daemon dies right after %s -> %q (%s) took effect", op, target, where)
+		s.Count("fault.crash_after_rename", 1)
+		s.Crash()
+		s.ParkForever()
+	}
 }
 
 // entryAt describes what is on disk at an absolute path right now.
@@ -710,7 +844,7 @@ func (d *diskState) userOp(op simkit.Op) {
 		act, kind, path := op.Str(1), op.Str(2), op.Str(3)
 		n, id := op.Int(0), op.Int(1)
 		d.mu.Lock()
-		d.midcycle = &midcycleEvent{side: side, activity: act, countdown: int(n), fire: func() {
+		d.midcycle = &midcycleEvent{side: side, activity: act, path: path, countdown: int(n), fire: func() {
 			d.h.s.Count("fault.fs_user_armed."+kind, 1)
 			d.userOp(simkit.Op{Actor: "user", Kind: kind, N: []int64{id, 0}, S: []string{side, path, "a"}})
 		}}
